@@ -84,6 +84,21 @@ impl <N: NumericOps> ArrayLinalgEigen<N> for Array<N> {
     }
 
     fn eig(&self) -> LinalgResult<N> {
+        if self.ndim()? > 2 {
+            self.is_square()?;
+            let shape = self.get_shape()?;
+            let sub_shape = shape[self.ndim()? - 2 ..].to_vec();
+            let results = self
+                .ravel()?
+                .split(self.len()? / sub_shape.iter().product::<usize>(), None)?
+                .iter()
+                .map(|arr| arr.reshape(&sub_shape).eig())
+                .collect::<Vec<LinalgResult<N>>>()
+                .has_error()?.into_iter()
+                .flat_map(Result::unwrap)
+                .collect();
+            return Ok(results)
+        }
         let mut results = vec![];
         for eigenvalues in self.eigvals()? {
             let mut vectors = vec![];
